@@ -53,6 +53,8 @@ pub enum Mode {
     CutAt { off: usize, zero: bool },
     /// every call accepts at most k bytes
     Cap(usize),
+    /// accept bytes up to absolute offset `off`, fail once there, then accept everything
+    FailOnceAt { off: usize, failed: bool },
     /// random caps (seeded), occasional Interrupted
     Random(u64),
 }
@@ -96,6 +98,19 @@ impl Sink {
                 }
             }
             Mode::Cap(k) => Resp::Acc(*k),
+            Mode::FailOnceAt { off, failed } => {
+                if *failed {
+                    Resp::All
+                } else {
+                    let room = off.saturating_sub(self.got.len());
+                    if room == 0 {
+                        self.mode = Mode::FailOnceAt { off: 0, failed: true };
+                        Resp::Fail
+                    } else {
+                        Resp::Acc(room)
+                    }
+                }
+            }
             Mode::Random(_) => {
                 let rng = self.rng.as_mut().unwrap();
                 if self.intr_run < 2 && rng.gen_ratio(1, 10) {
@@ -267,6 +282,44 @@ impl Runner {
 }
 
 /// Replay of a single recorded case (from a VIOLATION replay file).
+/// A Printer that is used again after one of its print calls failed must start the next value afresh: whatever it
+/// delivers after the failure is exactly the text of the later values (nothing kept from the failed one).
+fn printer_reuse(v1: &Value, v2: &Value, po: &J, custom: bool, off: usize) -> Option<String> {
+    let t1 = if custom { lexpr::to_string_custom(v1, print_opts(po)).ok()? } else { lexpr::to_string(v1).ok()? };
+    let t2 = if custom { lexpr::to_string_custom(v2, print_opts(po)).ok()? } else { lexpr::to_string(v2).ok()? };
+    let r = std::panic::catch_unwind(|| {
+        let sink = Sink::new(Mode::FailOnceAt { off, failed: false });
+        if custom {
+            let mut p = Printer::with_options(sink, print_opts(po));
+            let r1 = p.print(v1).is_ok();
+            let r2 = p.print(v2).is_ok();
+            (r1, r2, p.into_inner().got)
+        } else {
+            let mut p = Printer::new(sink);
+            let r1 = p.print(v1).is_ok();
+            let r2 = p.print(v2).is_ok();
+            (r1, r2, p.into_inner().got)
+        }
+    });
+    match r {
+        Err(_) => Some("printing panicked".to_string()),
+        Ok((r1, r2, got)) => {
+            if off <= t1.len().saturating_sub(1) && r1 {
+                return Some(format!("the first print reports success although the sink failed at offset {}", off));
+            }
+            if !r1 && r2 {
+                // the failed print delivered a prefix of t1 of length off; then the whole of t2
+                let want: Vec<u8> = t1.as_bytes()[..off.min(t1.len())].iter().chain(t2.as_bytes().iter()).cloned().collect();
+                if got != want {
+                    return Some(format!("after a failed print the same Printer delivered {:?}; a prefix of the first text followed by exactly the second text is {:?}",
+                                        String::from_utf8_lossy(&got), String::from_utf8_lossy(&want)));
+                }
+            }
+            None
+        }
+    }
+}
+
 pub fn replay_case(case: &J) -> J {
     let v = json_to_val(&case["v"]);
     let mode = mode_from_json(&case["mode"]);
@@ -331,6 +384,27 @@ pub fn run(cfg: &J) -> J {
             let po = &po_set[(i * 7 + si) % po_set.len()];
             let mj = json!({"m":"sched","resp": s.iter().map(|x| x.json()).collect::<Vec<_>>()});
             r.one(ep, v, &vj, po, Mode::Sched(s.clone()), mj);
+        }
+    }
+
+    // (2b) a Printer reused after a failure at every offset of the first value
+    {
+        let firsts = [Value::string("abc\n\u{3bb}\"x"), Value::list(vec![Value::symbol("a"), Value::string("s\t"), Value::from(12345u32), Value::keyword("k")]),
+                      Value::from(-1234567i64), Value::bytes(vec![1u8, 2, 3])];
+        let seconds = [Value::string("abc"), Value::list(vec![Value::string("q"), Value::Char('x')]), Value::symbol("sym")];
+        for v1 in firsts.iter() {
+            let len = lexpr::to_string(v1).map(|t| t.len()).unwrap_or(0).max(lexpr::to_string_custom(v1, lexpr::print::Options::elisp()).map(|t| t.len()).unwrap_or(0));
+            for v2 in seconds.iter() {
+                for off in 0..=len {
+                    for (custom, po) in [(false, &dpo), (true, &po_set[1])] {
+                        r.runs += 1;
+                        if let Some(why) = printer_reuse(v1, v2, po, custom, off) {
+                            r.out.push(json!({"bad":["printer-reuse"],"why":why,"ep": if custom {"printer_with_options"} else {"printer_new"},"v":val_to_json(v1),"po":po,
+                                              "mode":{"m":"failonce","off":off},"v2":val_to_json(v2)}));
+                        }
+                    }
+                }
+            }
         }
     }
 
